@@ -141,8 +141,11 @@ class Ceremony:
                 keys.append(self.xprv(self.masters[j]) if j == own else self.account_xpubs[j])
             w.op('create_party', party=p, order=order, wt=self.wt, m=self.m, n=self.n, sort_keys=self.sort_keys)
             db = os.path.join(w.scratch, 'p%d.sqlite' % p)
+            kw = {}
+            if self.focus == 'C10' and ch.coin('no_anti_fee_sniping', 0.25):
+                kw['anti_fee_sniping'] = False      # cosigners need not agree on this setting (locktime 0 vs tip)
             wlt = BW.Wallet.create('party%d' % p, keys=keys, sigs_required=self.m, network=self.network,
-                                   witness_type=self.wt, sort_keys=self.sort_keys, db_uri=db, db_cache_uri=self.cache)
+                                   witness_type=self.wt, sort_keys=self.sort_keys, db_uri=db, db_cache_uri=self.cache, **kw)
             self.parties.append({'w': wlt, 'own': own, 'db': db, 'order': order})
         self.agreed = agreed
 
@@ -282,9 +285,11 @@ class Ceremony:
         outs = [(self.ext_addr, amt // n_out)] * n_out
         how = ch.pick('create_how', ['send', 'send', 'sweep', 'transaction_create'])
         fee = ch.pick('fee', [None, 3000, 1500])
-        w.op('create', party=p, how=how, amount=amt, fee=fee)
+        rbf = self.focus == 'C10' and how == 'send' and ch.coin('rbf', 0.3)
+        w.op('create', party=p, how=how, amount=amt, fee=fee, **({'rbf': True} if rbf else {}))
         if how == 'send':
-            ok, t = self.call('send', lambda: party['w'].send(outs, fee=fee, broadcast=False, min_confirms=0))
+            ok, t = self.call('send', lambda: party['w'].send(outs, fee=fee, broadcast=False, min_confirms=0,
+                                                             **({'replace_by_fee': True} if rbf else {})))
             signed = ok
         elif how == 'sweep':
             ok, t = self.call('sweep', lambda: party['w'].sweep(self.ext_addr, broadcast=False, min_confirms=0))
